@@ -79,11 +79,37 @@ theorem sqlToks_eq_yield : (e : Expr) → PrecOK e → sqlToks e = yield (canonK
   | .index e (some (k, sp)) i, hp => by
     simp only [PrecOK, precOK, Bool.and_eq_true, decide_eq_true_eq] at hp
     simp [sqlToks, canonKw, yield, sqlToks_eq_yield e hp.1.1, sqlToks_eq_yield i hp.2, parenT_id hp.1.2]
+  | .caseE o c t ws el, hp => by
+    simp only [PrecOK, precOK, Bool.and_eq_true] at hp
+    simp only [sqlToks, canonKw, yield, sqlToksO_eq_yieldO [] o hp.1.1.1.1, sqlToks_eq_yield c hp.1.1.1.2,
+      sqlToks_eq_yield t hp.1.1.2, sqlToksW_eq_yieldW ws hp.1.2, sqlToksO_eq_yieldO [T .else_] el hp.2]
+  | .ifE c t e, hp => by
+    simp only [PrecOK, precOK, Bool.and_eq_true] at hp
+    simp only [sqlToks, canonKw, yield, sqlToks_eq_yield c hp.1.1, sqlToks_eq_yield t hp.1.2, sqlToks_eq_yield e hp.2]
+  | .array .nil, _ => by simp [sqlToks, canonKw, canonKwL, yield]
+  | .cast e ns, hp => by
+    simp only [PrecOK, precOK] at hp
+    simp only [sqlToks, canonKw, yield, sqlToks_eq_yield e hp]
+  | .array (.cons e es), hp => by
+    simp only [PrecOK, precOK, precOKs, Bool.and_eq_true] at hp
+    simp only [sqlToks, canonKw, canonKwL, yield, sqlToks_eq_yield e hp.1, sqlToksL_eq_yields es hp.2]
 theorem sqlToksL_eq_yields : (m : Exprs) → precOKs m = true → sqlToksL m = yields (canonKwL m)
   | .nil, _ => by simp [sqlToksL, canonKwL, yields]
   | .cons e es, hp => by
     simp only [precOKs, Bool.and_eq_true] at hp
     simp [sqlToksL, canonKwL, yields, sqlToks_eq_yield e hp.1, sqlToksL_eq_yields es hp.2]
+theorem sqlToksW_eq_yieldW : (ws : Whens) → precOKw ws = true → sqlToksW ws = yieldW (canonKwW ws)
+  | .nil, _ => by simp [sqlToksW, canonKwW, yieldW]
+  | .cons c t ws, hp => by
+    simp only [precOKw, Bool.and_eq_true] at hp
+    simp only [sqlToksW, canonKwW, yieldW, sqlToks_eq_yield c hp.1.1, sqlToks_eq_yield t hp.1.2,
+      sqlToksW_eq_yieldW ws hp.2]
+theorem sqlToksO_eq_yieldO (pre : List Tok') : (o : OExpr) → precOKo o = true →
+    sqlToksO pre o = yieldO pre (canonKwO o)
+  | .none, _ => by simp [sqlToksO, canonKwO, yieldO]
+  | .some e, hp => by
+    simp only [precOKo] at hp
+    simp only [sqlToksO, canonKwO, yieldO, sqlToks_eq_yield e hp]
 end
 
 /-! ## canonical spelling preserves grouping and normal form -/
@@ -126,9 +152,21 @@ theorem precOK_canonKw : (e : Expr) → precOK (canonKw e) = precOK e
   | .sel e _ => by simp [canonKw, precOK, precOK_canonKw e, level_canonKw]
   | .index e none i => by simp [canonKw, precOK, precOK_canonKw e, precOK_canonKw i, level_canonKw]
   | .index e (some (k, sp)) i => by simp [canonKw, precOK, precOK_canonKw e, precOK_canonKw i, level_canonKw]
+  | .caseE o c t ws el => by
+    simp only [canonKw, precOK, precOKo_canonKwO o, precOK_canonKw c, precOK_canonKw t, precOKw_canonKwW ws,
+      precOKo_canonKwO el]
+  | .ifE c t e => by simp only [canonKw, precOK, precOK_canonKw c, precOK_canonKw t, precOK_canonKw e]
+  | .array es => by simp only [canonKw, precOK, precOKs_canonKwL es]
+  | .cast e _ => by simp only [canonKw, precOK, precOK_canonKw e]
 theorem precOKs_canonKwL : (m : Exprs) → precOKs (canonKwL m) = precOKs m
   | .nil => by simp [canonKwL]
   | .cons e es => by simp [canonKwL, precOKs, precOK_canonKw e, precOKs_canonKwL es]
+theorem precOKw_canonKwW : (ws : Whens) → precOKw (canonKwW ws) = precOKw ws
+  | .nil => by simp [canonKwW]
+  | .cons c t ws => by simp only [canonKwW, precOKw, precOK_canonKw c, precOK_canonKw t, precOKw_canonKwW ws]
+theorem precOKo_canonKwO : (o : OExpr) → precOKo (canonKwO o) = precOKo o
+  | .none => by simp [canonKwO]
+  | .some e => by simp only [canonKwO, precOKo, precOK_canonKw e]
 end
 
 theorem head?_append_congr {α : Type} {a a' b b' : List α} (h1 : a.head? = a'.head?) (h2 : b.head? = b'.head?) :
@@ -154,6 +192,11 @@ theorem head_yield_canonKw : (e : Expr) → (yield (canonKw e)).head? = (yield e
   | .sel e _ => by simp only [canonKw, yield]; exact head?_append_congr (head_yield_canonKw e) rfl
   | .index e none _ => by simp only [canonKw, yield]; exact head?_append_congr (head_yield_canonKw e) rfl
   | .index e (some (k, sp)) _ => by simp only [canonKw, yield]; exact head?_append_congr (head_yield_canonKw e) rfl
+  | .caseE .. => by simp [canonKw, yield]
+  | .ifE .. => by simp [canonKw, yield]
+  | .array .nil => by simp [canonKw, canonKwL, yield]
+  | .array (.cons _ _) => by simp [canonKw, canonKwL, yield]
+  | .cast .. => by simp [canonKw, yield]
 
 theorem startsPosKw_congr {a b : List Tok'} (h : a.head? = b.head?) : startsPosKw a = startsPosKw b := by
   cases a with
@@ -197,10 +240,27 @@ theorem nf_canonKw : (e : Expr) → nf e = true → nf (canonKw e) = true
   | .index e (some (k, sp)) i, h => by
     simp only [nf, Bool.and_eq_true] at h
     simp [canonKw, nf, nf_canonKw e h.1.1, nf_canonKw i h.1.2, posKwName_str]
+  | .caseE o c t ws el, h => by
+    simp only [nf, Bool.and_eq_true] at h
+    simp [canonKw, nf, nfo_canonKwO o h.1.1.1.1, nf_canonKw c h.1.1.1.2, nf_canonKw t h.1.1.2, nfw_canonKwW ws h.1.2,
+      nfo_canonKwO el h.2]
+  | .ifE c t e, h => by
+    simp only [nf, Bool.and_eq_true] at h
+    simp [canonKw, nf, nf_canonKw c h.1.1, nf_canonKw t h.1.2, nf_canonKw e h.2]
+  | .array es, h => by simp only [nf] at h; simp [canonKw, nf, nfs_canonKwL es h]
+  | .cast e ns, h => by simp only [nf, Bool.and_eq_true] at h; simp [canonKw, nf, nf_canonKw e h.1, h.2]
 theorem nfs_canonKwL : (m : Exprs) → nfs m = true → nfs (canonKwL m) = true
   | .nil, _ => by simp [canonKwL, nfs]
   | .cons e es, h => by
     simp only [nfs, Bool.and_eq_true] at h; simp [canonKwL, nfs, nf_canonKw e h.1, nfs_canonKwL es h.2]
+theorem nfw_canonKwW : (ws : Whens) → nfw ws = true → nfw (canonKwW ws) = true
+  | .nil, _ => by simp [canonKwW, nfw]
+  | .cons c t ws, h => by
+    simp only [nfw, Bool.and_eq_true] at h
+    simp [canonKwW, nfw, nf_canonKw c h.1.1, nf_canonKw t h.1.2, nfw_canonKwW ws h.2]
+theorem nfo_canonKwO : (o : OExpr) → nfo o = true → nfo (canonKwO o) = true
+  | .none, _ => by simp [canonKwO, nfo]
+  | .some e, h => by simp only [nfo] at h; simp [canonKwO, nfo, nf_canonKw e h]
 end
 
 /-- **`print_minimal`, token level.**  For a tree `e` the parser can build (`PrecOK e`, `NF e`):
